@@ -101,6 +101,7 @@ class State:
         self.next_loc = 1
         self.solver = z3.Solver()
         self.solver.set('timeout', explorer.feas_timeout_ms)
+        self.solver.set('rlimit', int(__import__('os').environ.get('PYVC_FEAS_RLIMIT', '20000000')))
         self.merge = 0            # >0: merge mode (spec evaluation; no forking, no raising)
         self.ghost = {}           # free-form per-path ghost store
         self.guards = []          # merge-mode branch conditions under which facts are being added
